@@ -94,7 +94,9 @@ UNPROVED = [
 RULE = ("per mechanism kind, parameters, inputs and random streams are generated from the seed; every stream is run on the "
         "real mechanism (scripted SystemRandom / RandomState through the public random_state= argument) for 3 inputs and "
         "on the Lean model; a case is non-trivial when the noise is non-zero and, for rejection samplers, when at least "
-        "one draw was rejected; distinct by (kind, parameters, stream)")
+        "one draw was rejected; distinct by (kind, parameters, stream). Staircase: gamma = None (default), interior values, the "
+        "end points 0 / 0.0 / 1 / 1.0 and values next to them; the reference (model line and the direct check) is built from "
+        "the REQUESTED gamma, never from the attribute read back from the object")
 
 KINDS = ["lap", "trunc", "fold", "bdom", "bnoise", "gauss", "gaussA", "dgauss", "stair", "unif", "vec", "snap"]
 
@@ -664,7 +666,12 @@ def gen_case(kind, r):
         xs = [0, r.randint(-1000, 1000), r.randint(-10, 10)]
         script["u"] = [r.u01() for _ in range(400)]
     elif kind == "stair":
-        p = {"eps": r.loguniform(0.05, 10.0), "gamma": r.choice([None, None, r.u01(), 0.0, 1.0, 0.5]), "sens": sens}
+        # gamma: default (None), interior, and the documented end points of [0, 1] — as int and as float (0 and 0.0 are
+        # falsy, 1 and 1.0 are not) — and values next to the end points
+        tiny = r.choice([5e-324, 2.0 ** -1022, 1e-300, 2.0 ** -53, 1e-12, 1e-6])
+        p = {"eps": r.loguniform(0.05, 10.0),
+             "gamma": r.choice([None, None, r.u01(), r.u01(), 0.5, 0.0, 0, 1.0, 1, tiny, 1 - r.choice([2.0 ** -53, 1e-12, 1e-6])]),
+             "sens": sens}
         g = 1
         while r.chance(0.5) and g < 12:
             g += 1
@@ -781,7 +788,10 @@ def eval_case(ctx, case):
     if kind in ("bdom", "gauss", "gaussA", "dgauss"):
         info["scale"] = float(m._scale) if m._scale is not None else float("nan")
     if kind == "stair":
-        info["gamma"] = float(m.gamma)
+        # the reference is built from the REQUESTED gamma (the stored attribute may have been rewritten by the constructor);
+        # only the default (gamma=None) is read back, and that one is compared with the model's stairgamma line
+        info["gamma"] = float(m.gamma) if p["gamma"] is None else float(p["gamma"])
+        info["stored_gamma"] = float(m.gamma)
     if kind == "vec":
         e = p["eps"] - 2 * math.log(1 + p["fs"] * p["ds"] / p["alpha"])
         info["scale"] = p["ds"] * 2 / (e if e > 0 else p["eps"] / 2)
@@ -846,6 +856,36 @@ def vector_fixed_check(p, sc, n):
         want = float(np.dot(ref_b, w)) / n
         if not abs((float(v) - cv) - want) <= 1e-11 * (abs(want) + mag) + 1e-13 * (abs(cv) + 1):
             return (f"evaluation #{k} (w={w.tolist()}): value − clean value = {float(v) - cv!r}, expected b·w/n = {want!r}")
+    return None
+
+
+def ref_staircase_noise(eps, gamma, sens, u1, g, u2, u3):
+    """reference staircase draw (Geng–Viswanath): sign, geometric index g >= 0, position u2 inside the step, u3 selects the
+    first (width gamma) or second (width 1 - gamma) part of the step.  Returns (noise, threshold of the selection draw)"""
+    sign = -1.0 if u1 < 0.5 else 1.0
+    b = math.exp(-eps)
+    den = gamma + (1 - gamma) * b
+    thr = gamma / den if den > 0 else float("nan")
+    mag = (g + gamma * u2) if u3 < thr else (g + gamma + (1 - gamma) * u2)
+    return sign * mag * sens, thr
+
+
+def staircase_requested_gamma(p, ok, sc):
+    """None, or a description of how a release deviates from the staircase draw for the requested gamma on its stream"""
+    gam = float(p["gamma"])
+    u1, u2, u3 = sc["u"][0], sc["u"][1], sc["u"][2]
+    g = sc["geom"][0] - 1
+    want, thr = ref_staircase_noise(p["eps"], gam, p["sens"], u1, g, u2, u3)
+    if thr != thr or abs(u3 - thr) <= 1e-13 or abs(u1 - 0.5) <= 1e-15:
+        return None         # on a break-point of the sampler (exp rounding): not informative
+    for x, rr in ok:
+        n = noise_of("stair", rr[0], x)
+        tol = 1e-12 * p["sens"] * (g + 1) + 8 * EPS * max(abs(x), abs(n))
+        if not abs(n - want) <= tol:
+            return (f"Staircase(epsilon={p['eps']!r}, sensitivity={p['sens']!r}, gamma={p['gamma']!r}).randomise({x!r}) on the "
+                    f"stream (sign draw {u1!r}, geometric {g + 1}, position {u2!r}, part draw {u3!r}) adds noise {n!r}; the staircase "
+                    f"draw for the requested gamma={p['gamma']!r} on that stream is {want!r} (part threshold {thr!r}); the object "
+                    f"stores gamma={float(rr[2].gamma)!r}")
     return None
 
 
@@ -924,6 +964,13 @@ def direct_checks(ctx, case, info):
                                   f"noise/scale differs across parameter settings for the same stream: {ua!r} at {p} "
                                   f"vs {uc!r} at {p3} (scale = calibrated closed form)")
                         return
+    # --- 2a. Staircase: the unit noise is the staircase draw for the gamma THE CALLER ASKED FOR (every gamma of [0, 1], end
+    # points included), computed here from the same stream independently of the object's stored attributes
+    if kind == "stair" and p["gamma"] is not None and ok:
+        bad = staircase_requested_gamma(p, ok, sc)
+        if bad:
+            violation(ctx, case, "requested-gamma-not-used", bad)
+            return
     # --- 2b. Vector: the noise is fixed at release — the returned function is the same function on every evaluation
     if kind == "vec":
         for n_ in (1, 7, 50):
